@@ -14,6 +14,7 @@ import json
 import os
 
 from mbt import engine
+from drivers import common as _common
 from drivers import c08
 from drivers.common import run_async
 
@@ -45,7 +46,7 @@ def observe(text, name):
 
     a1, a2 = api(), api()
     obs.append({"route": "validator_api", "profile": "-", "status": a1["status"], "pairs": a1["pairs"], "readonly": True, "stable": a1 == a2})
-    vt = ValidateTool()
+    vt = _common.tool("validate")
     for prof in PROFILES:
         def call():
             r = run_async(vt.execute(content=text, schema=name, profile=prof))
@@ -55,7 +56,7 @@ def observe(text, name):
         r1, r2 = call(), call()
         obs.append({"route": "octave_validate", "profile": prof, "status": r1["status"], "pairs": r1["pairs"],
                     "readonly": r1["canonical"] == plain, "stable": r1 == r2})
-    wt = WriteTool()
+    wt = _common.tool("write")
     p = os.path.join(c08._schema_dir(), "w%d.oct.md" % os.getpid())
 
     def wcall():
